@@ -248,12 +248,22 @@ func verifRoot() string {
 	return "/verif"
 }
 
+// outRoot is where evidence and replay files go: /verif normally, a scratch
+// directory when the checks are pointed at an alternative tree (sensitivity runs),
+// so that evidence committed under /verif always comes from /repo itself.
+func outRoot() string {
+	if r := os.Getenv("VERIF_OUTDIR"); r != "" {
+		return r
+	}
+	return verifRoot()
+}
+
 func writeReplay(v *Violation, tier string, spec interface{}) {
 	raw, _ := json.Marshal(spec)
 	v.Spec = raw
 	rf := replayFile{v.Property, v.Class, v.Key, v.Seed, tier, v.Detail, raw}
 	b, _ := json.MarshalIndent(rf, "", " ")
-	dir := filepath.Join(verifRoot(), "replays")
+	dir := filepath.Join(outRoot(), "replays")
 	os.MkdirAll(dir, 0755)
 	name := fmt.Sprintf("%s-%d-%x.json", v.Property, v.Seed, fnv64(string(raw)+v.Class)&0xffffff)
 	path := filepath.Join(dir, name)
@@ -661,7 +671,7 @@ func writeEvidence(def *CheckDef, tier string, seed uint64, st *Stats, wall floa
 	if err != nil {
 		return err
 	}
-	dir := filepath.Join(verifRoot(), "evidence")
+	dir := filepath.Join(outRoot(), "evidence")
 	os.MkdirAll(dir, 0755)
 	return os.WriteFile(filepath.Join(dir, def.ID+".json"), b, 0644)
 }
